@@ -4,7 +4,7 @@ from sa import cfg
 from sa.cfg import BranchFacts
 from sa.flow import arg_nodes
 
-UNITS = ["lib/BuildSystem/BuildSystem.cpp", "lib/BuildSystem/ExternalCommand.cpp", "lib/BuildSystem/BuildNode.cpp", "lib/BuildSystem/ShellCommand.cpp"]
+UNITS = ["lib/BuildSystem/BuildSystem.cpp", "lib/BuildSystem/ExternalCommand.cpp", "lib/BuildSystem/BuildNode.cpp", "lib/BuildSystem/ShellCommand.cpp", "lib/BuildSystem/BuildFile.cpp"]
 THOROUGH_ALL_UNITS = False
 EXPLANATION = (
     "lookupRule has a case for every build-key kind, and every rule it creates pairs the task class with that class's own "
@@ -92,8 +92,48 @@ def r_output_compare(prog, rep, with_inputs=True):
     return r
 
 
+def r_buildfile_keys(prog, rep):
+    r = rep.rule("R-BUILDFILE-KEYS", "the build description's command keys reach the command they describe: `inputs` -> configureInputs, `outputs` -> "
+                                     "configureOutputs (and every listed output node records this command as a producer), `description` -> "
+                                     "configureDescription; every name in the list becomes a node of that name; nothing is skipped but malformed entries", floor=6)
+    fs = [f for f in prog.functions.values() if relpath(f.file) == "lib/BuildSystem/BuildFile.cpp" and not f.is_lambda and f.name.endswith("parseCommandsMapping")]
+    if len(fs) != 1:
+        raise AnalysisBroken("BuildFile.cpp: parseCommandsMapping not found (%d)" % len(fs))
+    f = fs[0]
+    want = {"inputs": "configureInputs", "outputs": "configureOutputs", "description": "configureDescription"}
+
+    def key_of(c):
+        """literal of the innermost enclosing `if (nodeIsScalarString(key, "..."))` then-arm"""
+        for a in f.ancestors(c):
+            if a.get("k") == "if" and any(x is c for x in a.child("then").walk()):
+                cs = [x for x in a.child("c").walk() if x.get("k") == "call" and (x.get("fn") or "").endswith("nodeIsScalarString")]
+                if cs:
+                    lits = [y.get("v") for y in cs[0].walk() if y.get("k") == "str"]
+                    if lits:
+                        return lits[0]
+        return None
+    for key, meth in sorted(want.items()):
+        cs = [c for c in f.calls() if (c.get("fn") or "").split("::")[-1] == meth]
+        ok = len(cs) == 1 and key_of(cs[0]) == key
+        r.check(ok, "parseCommandsMapping|%s->%s" % (key, meth), "", "%s is called under key %s" % (meth, [key_of(c) for c in cs]), f, cs[0] if cs else None)
+        if ok and key in ("inputs", "outputs"):
+            a = arg_nodes(cs[0])
+            lst = expr_plain(a[1]) if len(a) > 1 else ""
+            pbs = [c for c in f.calls("push_back") if expr_plain(c.child("obj")) == lst and key_of(c) == key]
+            okn = len(pbs) == 1 and any((x.get("fn") or "").endswith("getOrCreateNode") for x in (list(arg_nodes(pbs[0])[0].walk()) + [
+                y for d in f.nodes if d.get("k") == "decl" for v in d.get("vars", []) if "init" in v and v.get("n") == expr_plain(arg_nodes(pbs[0])[0]) for y in f.nodes[v["init"]].walk()]) if x.get("k") == "call")
+            loops = [l for l in f.nodes if l.get("k") == "forrange" and pbs and any(x is pbs[0] for x in l.walk())]
+            okn = okn and len(loops) >= 1 and not any(x.get("k") in ("break", "return") for x in loops[0].child("body").walk())
+            r.check(okn, "parseCommandsMapping|%s-every-name-becomes-a-node" % key, "", "not every listed %s name is turned into a node of the list handed to %s" % (key, meth), f)
+    prod = [c for c in f.calls("push_back") if "getProducers()" in expr_str(c.child("obj"))]
+    okp = len(prod) == 1 and key_of(prod[0]) == "outputs" and "command" in expr_plain(arg_nodes(prod[0])[0])
+    r.check(okp, "parseCommandsMapping|outputs-record-producer", "", "an output node does not record the command as its producer (it would be treated as a source file)", f)
+    return r
+
+
 def run(ctx):
     prog, rep = ctx.prog, ctx.report
+    r_buildfile_keys(prog, rep)
     from rules import inputids
     inputids.run_rule(prog, rep)
     from rules import C11
@@ -193,6 +233,14 @@ def run(ctx):
 
 
 VARIANTS = [
+    dict(name="outputs-do-not-record-producer", file="lib/BuildSystem/BuildFile.cpp",
+         old="            // Add this command to the node producer list.\n            node->getProducers().push_back(command.get());\n", new="", expect=("R-BUILDFILE-KEYS", "outputs-record-producer")),
+    dict(name="inputs-configured-as-outputs", file="lib/BuildSystem/BuildFile.cpp",
+         old="          command->configureInputs(getContext(key), nodes);", new="          command->configureOutputs(getContext(key), nodes);", expect=("R-BUILDFILE-KEYS", "inputs->configureInputs")),
+    dict(name="only-first-input-name-used", file="lib/BuildSystem/BuildFile.cpp",
+         old="                        static_cast<llvm::yaml::ScalarNode*>(&nodeName)),\n                    /*isImplicit=*/true));\n          }\n\n          command->configureInputs",
+         new="                        static_cast<llvm::yaml::ScalarNode*>(&nodeName)),\n                    /*isImplicit=*/true));\n            break;\n          }\n\n          command->configureInputs",
+         expect=("R-BUILDFILE-KEYS", "inputs-every-name-becomes-a-node")),
     dict(name="tree-signature-ids-overlap-child-ids", file="lib/BuildSystem/BuildSystem.cpp",
          edits=[("                     /*inputID=*/1 + childResults.size() + index);", "                     /*inputID=*/childResults.size() + index);"),
                 ("    auto index = inputID - 1 - childResults.size();\n    assert(index < childResults.size());\n    childResults[index].directorySignatureValue = valueData;", "    auto index = inputID - childResults.size();\n    assert(index < childResults.size());\n    childResults[index].directorySignatureValue = valueData;")],
